@@ -3,6 +3,6 @@ CONSTANTS
   Peers <- MCPeers
   Durs <- MCDurs
   Steps <- MCStepsT
-  MaxNow = 9
+  MaxNow = 8
 INVARIANTS TypeOK BlockedWhenRequested UnblockedOtherwise AnswersOK
 PROPERTIES AddNeverShortens QueriesArePure
